@@ -33,13 +33,14 @@ COQ_PROPS = ['Props/C07link.v', 'Props/C09link.v', 'Props/C10link.v']
 THEOREMS = ['C07_valid_content', 'C07_content_valid_partial', 'C07_content_valid_refuted', 'C07_serialisable',
             'C07_closure_serialisable', 'C07_closure_reloads', 'C07_C19_inject_models_agree',
             'C09_from_to_content', 'C09_constructors_agree_content', 'C09_from_json_models_agree', 'C09_roundtrip_ext', 'C09_qtok_dec_float',
-            'C10_gate_ext_partial', 'C10_gate_ext_refuted', 'C10_gates_accept_valid', 'C10_valid_iff_rules']
+            'C10_gate_ext_partial', 'C10_gate_ext_refuted', 'C10_prune_abstracts', 'C10_gates_accept_valid', 'C10_valid_iff_rules']
 ALLOWED_AXIOMS = []
 TABLES = ['t_content', 't_classes', 't_ext_tol', 't_cli']
 RULE = ('content: valid nondegenerate extensions of every dimensionality incl. (X,Y,Z,1), (X,Y,Z,1,V), (X,Y,Z,T,1), every '
         'slice dim (None,0,1,2), 0-5 keys in random classes (canonical or widened), values of every JSON kind, non-ASCII keys; '
         'built by make_empty + filling the class dictionaries (kinds make/*, empty/*), or taken from the results of the real '
-        'get_subset / DcmMetaExtension.from_sequence on such inputs (kinds subset/*, merge/*); observed: the content dictionary '
+        'get_subset / DcmMetaExtension.from_sequence / filter_meta / clear_slice_meta on such inputs (kinds subset/*, merge/*, filter/*, '
+        'clear/*), or from DicomStack.to_nifti(voxel order, embed_meta=True) of small stacks (conv/*: reorientation transform present); observed: the content dictionary '
         '(compared as a map), to_json text (parsed). non-trivial = a key in a class of multiplicity > 1 or a singleton '
         'time/vector axis')
 TRUSTED_BASE = [
@@ -51,7 +52,12 @@ ASSUMPTIONS = [
     'to_content renders affine entries through a token function; the executable instance qtok_dec is Python repr on dyadic '
     'rationals with at most 15 significant digits and magnitude in [1e-4, 1e16) or zero (the generated affines), no negative zero; '
     'an int-valued numpy affine (tolist() gives ints) is outside the model (the header stores Q)',
-    'dcmmeta_reorient_transform is None in everything generated (the Ext model does not track it): to_content renders null',
+    'dcmmeta_reorient_transform is not a field of the Ext model (the extension algebra never reads it): it is carried beside the '
+    'extension (to_content_r qtok reo e, theorems quantify over reo); kinds conv/* observe real conversions (small exact-geometry '
+    'stacks, to_nifti(voxel_order, embed_meta=True)) whose transform is a signed permutation, compared by the Coq check and '
+    'judged by the oracle from the case (signed permutation whose offsets undo the flips; result shape from the stack dims). '
+    'That the META DATA of a conversion is what the files say is C01 (LosslessPart), not repeated here; conversions whose affine '
+    'entries do not print as their exact decimal expansion fall back to observing a built extension',
     'a varying class of multiplicity one is rendered as a 1-list; such entries are outside `nondegenerate`, never generated, '
     'and when an operation produces one (bare value) the case falls back to observing the operation\'s input',
     'all dictionaries of the content (top level, base dictionaries, class dictionaries) are compared as maps: no property states the '
@@ -123,6 +129,33 @@ def same_unordered(a, b):
     return False
 
 
+def qtok_py(x):
+    """Python mirror of Link.Abs.qtok_dec (exact decimal expansion of the binary value, at most 80 fraction digits)."""
+    from fractions import Fraction
+    f = Fraction(x)
+    n, d = f.numerator, f.denominator
+    a = abs(n)
+    ip, r = divmod(a, d)
+    digs = []
+    while r and len(digs) < 80:
+        q, r = divmod(10 * r, d)
+        digs.append(str(q))
+    return ('-' if n < 0 else '') + str(ip) + '.' + (''.join(digs) or '0')
+
+
+def tokens_exact(rows):
+    """every float of the matrix prints (repr) as its exact decimal expansion: the domain of qtok_dec"""
+    import math
+    return all(isinstance(x, float) and (x != 0 or math.copysign(1.0, x) > 0) and qtok_py(x) == repr(x) for r in rows for x in r)
+
+
+def find_meta_ext(img):
+    for e in img.header.extensions:
+        if hasattr(e, 'get_class_dict'):
+            return e
+    return None
+
+
 def expected_bases(shape):
     n = len(shape)
     out = ['global']
@@ -178,14 +211,32 @@ class LinkPart:
         cases = []
         for i in range(n):
             r = rng.random()
-            if r < 0.55:
+            if r < 0.45:
                 sh, sdim, fam = LinkPart.gen_shape(rng, tier)
                 E = X.gen_ext(rng, tier, shape=sh, sdim=sdim, nkeys=rng.randint(0, 5), widen=rng.choice([0.0, 0.3, 0.7]))
                 cases.append({'kind': 'make/%s/%dD' % (fam, len(sh)), 'ext': E})
-            elif r < 0.65:
+            elif r < 0.52:
                 sh, sdim, fam = LinkPart.gen_shape(rng, tier)
                 E = X.mk_E(sh, sdim, X.gen_affine(rng), {})
                 cases.append({'kind': 'empty/%s/%dD' % (fam, len(sh)), 'ext': E})
+            elif r < 0.60:
+                sh, sdim, fam = LinkPart.gen_shape(rng, tier)
+                E = X.gen_ext(rng, tier, shape=sh, sdim=sdim, nkeys=rng.randint(1, 5), widen=rng.choice([0.0, 0.3, 0.7]))
+                if rng.random() < 0.5:
+                    keys = [e[0] for e in E['entries']]
+                    drop = sorted(rng.sample(keys, rng.randint(0, len(keys)))) if keys else []
+                    cases.append({'kind': 'filter/%s/%dD' % (fam, len(sh)), 'ext': E, 'drop': drop})
+                else:
+                    cases.append({'kind': 'clear/%s/%dD' % (fam, len(sh)), 'ext': E})
+            elif r < 0.70:
+                from props import convlib as CL
+                sh, sdim, fam = LinkPart.gen_shape(rng, tier)
+                fb = X.gen_ext(rng, tier, shape=sh, sdim=sdim, nkeys=rng.randint(0, 3))
+                st = CL.gen_stack_case(rng, 'quick', orient=rng.choice(['ax', 'ax2', 'cor', 'sag', 'ax', 'cor', 'sag', 'dx', 'dz', 'dcor']), gap=rng.choice([0.5, 1.0, 2.0, 2.5]),
+                                       ps=rng.choice([[1.0, 1.0], [0.5, 0.75], [2.0, 2.0], [0.25, 1.5]]),
+                                       origin=[rng.choice([-8., -1.5, 0., 4., 16.25]) for _ in range(3)], zs=None,
+                                       vo=rng.choice(CL.CODES48 + ['', None]), pixmix=[], alloc=16, bits=16)
+                cases.append({'kind': 'conv/%s' % (st.get('vo') if st.get('vo') not in ('', None) else 'asis'), 'stack': st, 'ext': fb})
             elif r < 0.85:
                 c = X.gen_subset_case(rng, tier)
                 cases.append({'kind': 'subset/dim%d/%dD' % (c['dim'], len(c['ext']['shape'])), 'ext': c['ext'],
@@ -220,14 +271,41 @@ class LinkPart:
                 E, ext, src = X.ext_to_json(r), r, 'merge'
             except Exception as e:      # noqa: BLE001
                 src = 'input-fallback:' + type(e).__name__
+        elif op in ('filter', 'clear'):
+            # filter_meta / clear_slice_meta work in place on a freshly built extension
+            r = X.build_ext(case['ext'])
+            if op == 'filter':
+                drop = set(case['drop'])
+                r.filter_meta(lambda key, val: key in drop)
+            else:
+                r.clear_slice_meta()
+            E, ext, src = X.ext_to_json(r), r, op
+        elif op == 'conv':
+            import dcmstack
+            from props import convlib as CL
+            st, wid, img, err, calls = CL.run_to_nifti(dcmstack, case['stack'], embed=True)
+            r = find_meta_ext(img) if img is not None else None
+            if r is None:
+                src = 'input-fallback:conv-' + str(err)
+            else:
+                try:
+                    E, ext, src = X.ext_to_json(r), r, 'conv'
+                except Exception as e:      # noqa: BLE001  a degenerate result has no abstraction
+                    src = 'input-fallback:' + type(e).__name__
         if ext is None:
             E = case['ext'] if 'ext' in case else case['exts'][0]
             ext = X.build_ext(E)
-        if src in ('subset', 'merge') and not X.is_nondegenerate(E):
+        reo = content_of(ext).get('dcmmeta_reorient_transform') if ext is not None else None
+        if src == 'conv' and not (tokens_exact(E['aff']) and (reo is None or tokens_exact(reo))):
+            # affine entries whose repr is not their exact decimal expansion: outside the executable token model (ASSUMPTIONS)
+            E = case['ext']
+            ext, src = X.build_ext(E), 'input-fallback:tokens'
+        if src in ('subset', 'merge', 'conv') and not X.is_nondegenerate(E):
             # a bare value / 1-list in a varying class of multiplicity one: outside the domain of the Ext model
             E = case['ext'] if 'ext' in case else case['exts'][0]
             ext, src = X.build_ext(E), 'input-fallback:degenerate'
         obs = {'src': src, 'E': E, 'content': _plain(content_of(ext)), 'abs': None}
+        obs['reo'] = obs['content'].get('dcmmeta_reorient_transform')
         try:
             obs['abs'] = X.ext_to_json(ext)
         except Exception as e:          # noqa: BLE001
@@ -262,8 +340,10 @@ class LinkPart:
     def coq_case(case, obs):
         j = obs['json']
         res = '(Ok tt)' if 'ok' in j else '(Err %s)' % j['err']
-        return '(Link.Corr.mk_case %s %s %s %s)' % (X.ext_to_coq(obs['E']), cjv(obs['content']), res,
-                                                    cstr(j.get('ok', '')))
+        reo = obs.get('reo')
+        creo = 'None' if reo is None else '(Some %s)' % X.caff(reo)
+        return '(Link.Corr.mk_case %s %s %s %s %s)' % (X.ext_to_coq(obs['E']), creo, cjv(obs['content']), res,
+                                                       cstr(j.get('ok', '')))
 
     # ---------------------------------------------------------------- oracle (implementation only)
     @staticmethod
@@ -286,6 +366,24 @@ class LinkPart:
             msgs = [m for m in msgs if not X.n13_tagged(m)]
             if msgs:
                 out.append(('result-vs-inputs', 'the result of the operation, read back, is not what its inputs give: ' + msgs[0]))
+        elif src in ('filter', 'clear'):
+            E0 = case['ext']
+            keep = (lambda e: e[0] not in set(case['drop'])) if src == 'filter' else (lambda e: X.PYCLS[e[1]][1] != 'slices')
+            E = dict(E0, entries=[e for e in E0['entries'] if keep(e)])
+            if obs.get('abs') != E:
+                out.append(('result-vs-inputs', '%s left %r, expected the entries %r' % (src, obs.get('abs'), E['entries'])))
+        elif src == 'conv':
+            E = obs['E']
+            st = case['stack']
+            S, T, V = st['dims']
+            f0 = st['files'][0]
+            tail = [T, V] if V > 1 else ([T] if T > 1 else [])
+            if sorted(E['shape'][:3]) != sorted([f0['rows'], f0['cols'], S]) or E['shape'][3:] != tail:
+                out.append(('conv-shape', 'converted extension has shape %r; the stack is %d x %d pixels, %d slices, %d time points, %d vector components'
+                            % (E['shape'], f0['rows'], f0['cols'], S, T, V)))
+            m = LinkPart.transform_problem(obs.get('reo'), E['shape'], st.get('vo'))
+            if m:
+                out.append(('conv-transform', m))
         else:
             E = case['ext'] if 'ext' in case else case['exts'][0]
             if obs.get('abs') != E:
@@ -312,7 +410,7 @@ class LinkPart:
             out.append(('affine-form', 'dcmmeta_affine is not a 4x4 list of floats: %r' % (a,)))
         elif a != [[float(x) for x in r] for r in E['aff']]:
             out.append(('affine-value', 'dcmmeta_affine %r differs from the affine %r' % (a, E['aff'])))
-        if c.get('dcmmeta_reorient_transform', 'absent') is not None:
+        if src != 'conv' and c.get('dcmmeta_reorient_transform', 'absent') is not None:
             out.append(('reorient', 'dcmmeta_reorient_transform is %r' % (c.get('dcmmeta_reorient_transform', 'absent'),)))
         if c.get('dcmmeta_version') != 0.6:
             out.append(('version', 'dcmmeta_version is %r' % (c.get('dcmmeta_version'),)))
@@ -339,6 +437,30 @@ class LinkPart:
         return out
 
     @staticmethod
+    def transform_problem(T, shape, vo):
+        """The reorientation transform of a conversion is a 4x4 signed permutation of the three voxel axes whose offsets undo
+        the flips (a flipped axis c of extent n maps index i to n - 1 - i); the identity when no reordering was asked for."""
+        if not (isinstance(T, list) and len(T) == 4 and all(isinstance(r, list) and len(r) == 4 and all(isinstance(x, float) for x in r) for r in T)):
+            return 'the reorientation transform is not a 4x4 list of floats: %r' % (T,)
+        if T[3] != [0.0, 0.0, 0.0, 1.0]:
+            return 'last row of the reorientation transform is %r' % (T[3],)
+        cols = []
+        for r in range(3):
+            nz = [c for c in range(3) if T[r][c] != 0.0]
+            if len(nz) != 1 or abs(T[r][nz[0]]) != 1.0:
+                return 'row %d of the reorientation transform is not a signed unit vector: %r' % (r, T[r])
+            c = nz[0]
+            cols.append(c)
+            want = float(shape[c] - 1) if T[r][c] < 0 else 0.0
+            if T[r][3] != want:
+                return 'offset %r of row %d does not undo the flip of an axis of extent %d' % (T[r][3], r, shape[c])
+        if sorted(cols) != [0, 1, 2]:
+            return 'the reorientation transform is not a permutation of the axes: %r' % (T,)
+        if vo == '' and T[:3] != [[1.0, 0.0, 0.0, 0.0], [0.0, 1.0, 0.0, 0.0], [0.0, 0.0, 1.0, 0.0]]:
+            return 'no reordering was asked for but the transform is %r' % (T,)
+        return None
+
+    @staticmethod
     def oracle(case, obs):
         cl = LinkPart.clauses(case, obs)
         return ('%s: %s' % cl[0]) if cl else None
@@ -363,7 +485,7 @@ class LinkPart:
                 E2 = copy.deepcopy(E)
                 del E2['entries'][i]
                 yield {'kind': case['kind'], 'ext': E2}
-        elif 'ext' in case:
+        elif 'ext' in case and 'stack' not in case:
             yield {'kind': 'make/shrunk/%dD' % len(case['ext']['shape']), 'ext': case['ext']}
         elif 'exts' in case:
             yield {'kind': 'make/shrunk/%dD' % len(case['exts'][0]['shape']), 'ext': case['exts'][0]}
